@@ -71,7 +71,7 @@ pub async fn run(args: &Args, rep: &mut Reporter) {
     let sname = if server_db { "dbserver" } else { "fsserver" };
     rep.count(&format!("server:{sname}"), 1);
     let srv = w.server.account(&w.account_id).await.expect("server account");
-    let whichs = [Which::Folder(folder), Which::Account, Which::Identity];
+    let whichs = [Which::Folder(folder), Which::Account, Which::Identity, Which::Device];
     let mut bases = vec![];
     for which in whichs {
         let s = srv.read().await;
@@ -92,6 +92,7 @@ pub async fn run(args: &Args, rep: &mut Reporter) {
         let log_id = match which {
             Which::Identity => LogId::Identity,
             Which::Account => LogId::Account,
+            Which::Device => LogId::Device,
             Which::Folder(id) => LogId::Folder(*id),
         };
         for suffix in &seqs {
@@ -184,6 +185,7 @@ pub async fn run(args: &Args, rep: &mut Reporter) {
                                 let name = ALPHABET[*x as usize].to_string();
                                 let rec = match which {
                                     Which::Account => EventRecord::encode_event(&AccountEvent::RenameAccount(name)).await,
+                                    Which::Device => EventRecord::encode_event(&crate::c08scan::device_event(name)).await,
                                     _ => EventRecord::encode_event(&WriteEvent::SetVaultName(name)).await,
                                 };
                                 patch.push(rec.expect("encode"));
@@ -195,6 +197,12 @@ pub async fn run(args: &Args, rep: &mut Reporter) {
                             let name = if (k + j) % 5 == 0 { ALPHABET[(k + j) % 3].to_string() } else { format!("patch-{}-{}", args.shard, fresh) };
                             let rec = match which {
                                 Which::Account => EventRecord::encode_event(&AccountEvent::RenameAccount(name)).await,
+                                // fresh device events: a key derived from the unique name
+                                Which::Device => {
+                                    let pk: sos_core::device::DevicePublicKey = vkit::sha256(name.as_bytes()).into();
+                                    let ev = if name.starts_with("patch-") { sos_core::events::DeviceEvent::Trust(sos_core::device::TrustedDevice::new(pk, None, None)) } else { crate::c08scan::device_event(name) };
+                                    EventRecord::encode_event(&ev).await
+                                }
                                 _ => EventRecord::encode_event(&WriteEvent::SetVaultName(name)).await,
                             };
                             let mut rec = rec.expect("encode");
@@ -333,6 +341,10 @@ async fn set_log_leaves<S: StorageEventLogs>(s: &S, which: Which) -> Vec<[u8; 32
             Err(_) => vec![],
         },
         Which::Account => match s.account_log().await {
+            Ok(l) => l.read().await.tree().leaves().unwrap_or_default(),
+            Err(_) => vec![],
+        },
+        Which::Device => match s.device_log().await {
             Ok(l) => l.read().await.tree().leaves().unwrap_or_default(),
             Err(_) => vec![],
         },
